@@ -34,6 +34,8 @@ type c01Case struct {
 	Opts cargen.Opts `json:"opts"`
 	// RemoteSample: check every k-th section through the remote path (1 = all)
 	RemoteSample int `json:"remote_sample"`
+	// SharedTmp: scratch directory (under the run's root) shared with another case that runs at the same time
+	SharedTmp string `json:"shared_tmp,omitempty"`
 }
 
 func c01Cases(seed int64) []c01Case {
@@ -90,7 +92,11 @@ func c01RunCase(rec *ev.Recorder, c c01Case, root string) {
 		rec.Count("ms_"+what, int(time.Since(t0).Milliseconds()))
 		t0 = time.Now()
 	}
-	fx, indexErr, err := vfMakeEpoch(dir, o, false)
+	tmpDir := filepath.Join(dir, "tmp")
+	if c.SharedTmp != "" {
+		tmpDir = filepath.Join(root, c.SharedTmp)
+	}
+	fx, indexErr, err := vfMakeEpochTmp(dir, o, false, tmpDir)
 	if err != nil {
 		rec.Inconclusive(fmt.Sprintf("%s: fixture: %v", c.Name, err))
 		return
@@ -101,7 +107,7 @@ func c01RunCase(rec *ev.Recorder, c c01Case, root string) {
 		// not in the property's domain (needs >= 1 block and >= 1 transaction): regenerate with one forced tx
 		o.ExactTx = len(m.Blocks)
 		os.RemoveAll(dir)
-		fx, indexErr, err = vfMakeEpoch(dir, o, false)
+		fx, indexErr, err = vfMakeEpochTmp(dir, o, false, tmpDir)
 		if err != nil {
 			rec.Inconclusive(fmt.Sprintf("%s: fixture: %v", c.Name, err))
 			return
@@ -327,7 +333,7 @@ func c01RunCase(rec *ev.Recorder, c c01Case, root string) {
 func TestVerifC01(t *testing.T) {
 	rec := ev.New("C01", "index-all")
 	defer rec.Flush()
-	rec.Rule("cargen CARs (random shapes + bucket-boundary item counts) indexed by createAllIndexes; every section/slot/signature looked up via index readers, local Epoch, remote Epoch, /api/v1; distinct = distinct layout signatures (epoch, header length, varint-width set, item-count classes, max frame chain)")
+	rec.Rule("cargen CARs (random shapes + bucket-boundary item counts) indexed by createAllIndexes; every section/slot/signature looked up via index readers, local Epoch (one fetch at a time and 8 at once), remote Epoch, /api/v1; pairs of same-epoch CARs indexed concurrently with a shared scratch directory; distinct = distinct layout signatures (epoch, header length, varint-width set, item-count classes, max frame chain)")
 	root := filepath.Join(ev.Scratch(), "c01")
 	os.MkdirAll(root, 0o755)
 	defer os.RemoveAll(root)
@@ -351,4 +357,26 @@ func TestVerifC01(t *testing.T) {
 		}()
 	}
 	wg.Wait()
+	// two CARs of the same epoch number (think of two networks, or two attempts) indexed at the same time by
+	// two `index` processes that were given the same scratch directory: each run must still come out complete
+	if !ev.LoadReplay(&rc) {
+		nTwins := ev.Pick(3, 12)
+		if os.Getenv("VERIF_RACE") != "" {
+			nTwins = 1
+		}
+		for k := 0; k < nTwins && !rec.Enough(); k++ {
+			var tw sync.WaitGroup
+			for side := 0; side < 2; side++ {
+				o := cargen.Opts{Epoch: uint64(40 + k), Seed: ev.Seed()*977 + int64(k*2+side), NSlots: 500 + 60*k, SkipOneIn: 4, MaxEntries: 2, MaxTx: 3, MultiFrameOneIn: 6, RewardsOneIn: 5, VoteOneIn: 4, FailOneIn: 4, V0OneIn: 4}
+				c := c01Case{Name: fmt.Sprintf("twin-%d-%c", k, 'a'+side), Opts: o, SharedTmp: fmt.Sprintf("twin-%d-tmp", k)}
+				tw.Add(1)
+				go func() {
+					defer tw.Done()
+					c01RunCase(rec, c, root)
+				}()
+			}
+			tw.Wait()
+			rec.Count("twin_index_runs_sharing_a_scratch_dir", 2)
+		}
+	}
 }
